@@ -384,23 +384,61 @@ def length_mirror(ctx, length_expr, pre, inl, record_pred):
             problems.append("the header length has no term for the emission %s" % e)
         else:
             used.add(hit[0])
-    sums = [i for i, t in enumerate(terms) if i not in used and t.k == "call" and t.a[0].name == "sum" and (t.a[0].trait or "").endswith("Iterator")]
-    if len(sums) != 1:
-        problems.append("the header length has %d summations over the pairs, expected one" % len(sums))
-    else:
-        used.add(sums[0])
-        sm = terms[sums[0]]
-        src = strip(sm.a[1][0])
-        good = False
-        if src.k == "call" and src.a[0].name == "map" and len(src.a[1]) == 2:
-            it = strip(src.a[1][0])
-            itok = it.k == "call" and it.a[0].name in ("iter", "into_iter") and it.a[1] and strip(it.a[1][0]).k == "field" and strip(it.a[1][0]).a[1] == "content" and record_pred(strip(strip(it.a[1][0]).a[0])) and \
-                ("btree_map::Iter<" in (sm.a[0].full or "") or "BTreeMap" in (it.a[0].full or ""))
-            cl = closure_of(src.a[1][1])
-            body = closures.closure_return(ctx, cl[0], cl[1], [E("closure-arg")]) if cl else None
-            if itok and body and len(body) == 1 and len(inl) == 2:
+    # a summation over the pairs: `iter.map(|kv| f(kv)).sum()`, or `iter.fold(init, |acc, kv| acc + f(kv))`
+    # (= init + the same sum: the accumulator occurs exactly once, added)
+    summations = []  # (index, iterator expr, callee, per-item terms, per-item constant)
+    for i, t in enumerate(list(terms)):
+        if i in used or t.k != "call" or not (t.a[0].trait or "").endswith("Iterator"):
+            continue
+        if t.a[0].name == "sum" and t.a[1]:
+            src = strip(t.a[1][0])
+            if src.k == "call" and src.a[0].name == "map" and len(src.a[1]) == 2:
+                cl = closure_of(src.a[1][1])
+                body = closures.closure_return(ctx, cl[0], cl[1], [E("closure-arg")]) if cl else None
+                if body and len(body) == 1:
+                    catoms, ccst = guards.linear(body[0], const_int, strip)
+                    summations.append((i, strip(src.a[1][0]), t.a[0], [strip(a) for a in catoms], ccst))
+                    continue
+            summations.append((i, None, t.a[0], [], 0))
+        elif t.a[0].name == "fold" and len(t.a[1]) == 3:
+            cl = closure_of(t.a[1][2])
+            body = closures.closure_return(ctx, cl[0], cl[1], [E("closure-acc"), E("closure-arg")]) if cl else None
+            if body and len(body) == 1:
                 catoms, ccst = guards.linear(body[0], const_int, strip)
-                cterms = [strip(a) for a in catoms]
+                catoms = [strip(a) for a in catoms]
+                accs = [a for a in catoms if unmut(a).k == "closure-acc"]
+                rest = [a for a in catoms if unmut(a).k != "closure-acc"]
+                if len(accs) == 1 and not any(x.k == "closure-acc" for a in rest for x in a.walk()):
+                    # the initial value contributes ordinary terms
+                    iatoms, icst = guards.linear(t.a[1][1], const_int, strip)
+                    if icst != 0:
+                        problems.append("the header length contains the constant %d" % icst)
+                    for a in iatoms:
+                        terms.append(strip(a))
+                    summations.append((i, strip(t.a[1][0]), t.a[0], rest, ccst))
+                    continue
+            summations.append((i, None, t.a[0], [], 0))
+    # terms added by a fold's initial value may be the length terms of emissions outside the loop
+    missing = [p for p in problems if p.startswith("the header length has no term for the emission")]
+    if missing:
+        for e in pre:
+            msg = "the header length has no term for the emission %s" % e
+            if msg in problems:
+                hit = [i for i, t in enumerate(terms) if i not in used and is_len_of(t, e)]
+                if hit:
+                    used.add(hit[0])
+                    problems.remove(msg)
+    if len(summations) != 1:
+        problems.append("the header length has %d summations over the pairs, expected one" % len(summations))
+    else:
+        si, it, callee, cterms, ccst = summations[0]
+        used.add(si)
+        sm = terms[si]
+        good = False
+        if it is not None:
+            itok = it.k == "call" and it.a[0].name in ("iter", "into_iter") and it.a[1] and strip(it.a[1][0]).k == "field" and strip(it.a[1][0]).a[1] == "content" and record_pred(strip(strip(it.a[1][0]).a[0])) and \
+                ("btree_map::Iter<" in (callee.full or "") or "BTreeMap" in (it.a[0].full or ""))
+            if itok and len(inl) == 2:
 
                 def arg_field(x, idx):
                     x = unmut(x)
